@@ -53,7 +53,13 @@ one_emit(int e, int serial, int mem16, uint16_t seq, uint32_t addr, size_t n, in
     f.header.type = (RPFrameType)reqtype;
     f.header.sequence = seq;
     f.header.address = addr;
-    f.header.options = (uint_least8_t)(mem16 ? RP_OPT_WORD_SIZE_16 : 0);
+    /* the request a response answers may carry the other word size than the instance serves (regp_process()
+     * refuses such requests, the public response functions can be called with them all the same): what goes out
+     * follows the instance's memory, as for every other response */
+    const int req16 = ((arg >> 5) & 3u) == 0 ? !mem16 : mem16;
+    f.header.options = (uint_least8_t)(req16 ? RP_OPT_WORD_SIZE_16 : 0);
+    if (req16 != mem16)
+        VH_COUNT("response to a request of the other word size");
     unsigned char be[4];
     int rc;
     switch (e) {
